@@ -12,6 +12,10 @@ from pams.runners import SequentialRunner
 
 from .common import RecLogger, SymRandom, PRICE_HI, VOL_HI
 
+REDUCTION_NOTE = ("activation order: the runner's sample() returns any permutation of the agents that can act at that step; "
+                  "scripted agents outside their activity window (they return [] whatever their position) are appended in a "
+                  "fixed order -- a symmetry reduction, not a restriction of the schedules that matter")
+
 RUN = None     # the current run context (one run at a time per process)
 
 
